@@ -263,4 +263,27 @@ PROPS['C13'] = {
     'design_ref': 'DESIGN.md section 5 C13',
 }
 
+PROPS['C17'] = {
+    'modules': ['contracts.fs_format', 'contracts.recover'],
+    'lemmas': [],
+    'level': 'proof',
+    'bounded': [
+        {'func': 'ZODB:<copy-and-recover>',
+         'bound': 'fsrecover.scan on every tail of <=12 bytes over {.,x} patterns with a 2 s alarm; 2 source histories '
+                  '(undo records, empty transaction): copyTransactionsFrom file->file and fsrecover of the undamaged '
+                  'file compared transaction by transaction; damage grid: ~30 offsets x {1,17,200} bytes of 0xff and '
+                  'truncation, each recovered with a 20 s alarm: every transaction ending before the damage present, '
+                  'only input transactions, order kept'},
+    ],
+    'text': 'fsrecover.scan proved to TERMINATE on every input (strictly decreasing variants on both loops) and to '
+            'return 0 or a position behind pos; fsrecover.read_txn_header proved to accept EXACTLY the header '
+            'conditions of the format (complete header, length fits the file, length >= header length, status in '
+            '\" up\", matching redundant length, no time-stamp reduction), to skip undone transactions, and to end '
+            'with EOF on a checkpointed tail; FileStorage._data_find proved (loop invariant over the record tiling of '
+            'the hinted transaction) to return the LAST record of the oid or 0.',
+    'note': 'BaseStorage.copy, blob.copyTransactionsFromTo, FileStorage.restore, the iterators and fsrecover.recover '
+            'as a whole are covered by the bounded harness only; fsrecover.truncate is an assumed contract.',
+    'design_ref': 'DESIGN.md section 5 C17',
+}
+
 NOT_YET = {}
